@@ -8,6 +8,10 @@ Require Import TL.Model.Temporal.
 Require Import TL.Model.Scalars.
 Require Import TL.Proofs.DurationLemmas.
 Require Import TL.Proofs.ScalarsLemmas.
+Require Import TL.Model.IsoText.
+Require Import TL.Model.ScalarsToy.
+Require Import TL.Proofs.IsoTextLemmas.
+Require Import TL.Proofs.ScalarsToyLemmas.
 Open Scope Z_scope.
 
 (* ------------------------------------------------------------------ durations: what typelib writes itself *)
@@ -143,3 +147,88 @@ Print Assumptions C04_text_time.
 Print Assumptions C04_num_to_temporal.
 Print Assumptions C04_temporal_to_num.
 Print Assumptions C04_temporal_to_text.
+
+(* ------------------------------------------------------------------ date / time / datetime text, character by character *)
+(* Model/IsoText.v writes date.isoformat(), time.isoformat(), datetime.isoformat() (tied to the interpreter by the
+   iso-writer stream); independent field-validating readers give back exactly the value (the fold is not part of the
+   text) -- for ALL values of the ranges: years 1..9999, every clock value, every whole-minute offset inside one day,
+   naive values too. *)
+Theorem C04_date_reader : forall y m d, valid_date y m d = true ->
+  read_iso_date (iso_date (y, m, d)) = Some (y, m, d).
+Proof. exact date_reader. Qed.
+Theorem C04_time_reader : forall t, valid_tm_text t = true -> read_iso_time (iso_time t) = Some (tm_fold0 t).
+Proof. exact time_reader. Qed.
+Theorem C04_datetime_reader : forall d, valid_dt_text d = true ->
+  read_iso_datetime (iso_datetime d) = Some (dt_fold0 d).
+Proof. exact datetime_reader. Qed.
+Example C04_iso_text_ranges_satisfiable :
+  valid_date 2024 2 29 = true /\ iso_date (2024, 2, 29) = "2024-02-29"%string /\
+  valid_tm_text {| th := 3; tmi := 4; ts := 5; tus := 6; toff := Some (-19800); tfold := 1 |} = true /\
+  iso_time {| th := 3; tmi := 4; ts := 5; tus := 6; toff := Some (-19800); tfold := 1 |} = "03:04:05.000006-05:30"%string /\
+  valid_dt_text {| dy := 1; dmo := 2; dd := 28; dh := 23; dmi := 59; ds := 59; dus := 0; doff := Some 86340; dfold := 0 |} = true /\
+  iso_datetime {| dy := 1; dmo := 2; dd := 28; dh := 23; dmi := 59; ds := 59; dus := 0; doff := Some 86340; dfold := 0 |}
+    = "0001-02-28T23:59:59+23:59"%string /\
+  read_iso_date "2023-02-29" = None.
+Proof. vm_compute. repeat split. Qed.
+
+(* The three temporal laws of RuntimeLaws are consequences of two facts the correspondence measures:
+   the interpreter writes what the model writers write, and its parser agrees with the independent reader wherever
+   that reader assigns a value. *)
+Theorem C04_date_law_from_reader : forall rt,
+  (forall y m d, valid_date y m d = true -> canon_text rt (VDate y m d) = iso_date (y, m, d)) ->
+  (forall s y m d, read_iso_date s = Some (y, m, d) -> pendulum_parse rt s = Ok (PDT (midnight_utc y m d))) ->
+  forall y m d, valid_date y m d = true ->
+    pendulum_parse rt (canon_text rt (VDate y m d)) = Ok (PDT (midnight_utc y m d)).
+Proof. exact date_law_from_reader. Qed.
+Theorem C04_datetime_law_from_reader : forall rt,
+  (forall d, valid_dt d = true -> canon_text rt (VDateTime d) = iso_datetime d) ->
+  (forall s d, read_iso_datetime s = Some d -> valid_dt d = true ->
+     exists d', pendulum_parse rt s = Ok (PDT d') /\ same_dt d d' = true) ->
+  forall d, valid_dt d = true ->
+    exists d', pendulum_parse rt (canon_text rt (VDateTime d)) = Ok (PDT d') /\ same_dt d d' = true.
+Proof. exact datetime_law_from_reader. Qed.
+Theorem C04_time_law_from_reader : forall rt,
+  (forall t, valid_tm t = true -> canon_text rt (VTime t) = iso_time t) ->
+  (forall s t, read_iso_time s = Some t -> valid_tm t = true ->
+     exists t', time_fromisoformat rt s = Ok t' /\ same_tm t t' = true) ->
+  forall t, valid_tm t = true ->
+    exists t', time_fromisoformat rt (canon_text rt (VTime t)) = Ok t' /\ same_tm t t' = true.
+Proof. exact time_law_from_reader. Qed.
+
+(* ------------------------------------------------------------------ non-vacuity: a concrete runtime satisfies every law *)
+(* toy_rt (Model/ScalarsToy.v): ints in decimal, ISO text for date/time/datetime, the independent duration reader
+   (plus pendulum's lenient 'PT'), tagged tokens for the values typelib never looks inside. *)
+Example C04_runtime_laws_satisfiable : RuntimeLaws toy_rt.
+Proof. exact toy_laws. Qed.
+(* the hypotheses of the text theorems hold of it, and the conclusions are what the toy really computes *)
+Example C04_text_int_on_toy :
+  unm_number toy_rt KInt (text toy_rt CMvBytes (canon_text toy_rt (VInt (-12345)))) = Ok (VInt (-12345)).
+Proof. exact (C04_text_int toy_rt C04_runtime_laws_satisfiable CMvBytes (-12345)). Qed.
+Example C04_dur_roundtrip_on_toy :
+  unm_timedelta toy_rt (text toy_rt CBytearray (isoformat toy_rt (VTimeDelta (-8) 3661 500))) = Ok (VTimeDelta (-8) 3661 500).
+Proof. exact (C04_dur_roundtrip toy_rt C04_runtime_laws_satisfiable CBytearray (-8, 3661, 500) eq_refl). Qed.
+Example C04_text_date_on_toy :
+  unm_date toy_rt (text toy_rt CBytes (canon_text toy_rt (VDate 2024 2 29))) = Ok (VDate 2024 2 29).
+Proof. exact (C04_text_date toy_rt C04_runtime_laws_satisfiable CBytes 2024 2 29 eq_refl). Qed.
+Example C04_text_enum_on_toy :
+  unm_enum toy_rt (text toy_rt CStr (canon_text toy_rt (VEnum "1"%string))) = Ok (VEnum "1"%string).
+Proof. exact (C04_text_enum toy_rt C04_runtime_laws_satisfiable CStr "1"%string eq_refl (toy_enum_member_ok "1"%string)). Qed.
+Example C04_toy_computes :
+  canon_text toy_rt (VInt (-12345)) = "-12345"%string /\
+  isoformat toy_rt (VTimeDelta (-8) 3661 500) = "-P7DT22H58M58.999500S"%string /\
+  canon_text toy_rt (VDate 2024 2 29) = "2024-02-29"%string /\
+  int_of_str toy_rt "12x" = Raise EValue /\
+  pendulum_parse toy_rt "2023-02-29" = Raise EValue.
+Proof. vm_compute. repeat split. Qed.
+
+Print Assumptions C04_date_reader.
+Print Assumptions C04_time_reader.
+Print Assumptions C04_datetime_reader.
+Print Assumptions C04_date_law_from_reader.
+Print Assumptions C04_datetime_law_from_reader.
+Print Assumptions C04_time_law_from_reader.
+Print Assumptions C04_runtime_laws_satisfiable.
+Print Assumptions C04_text_int_on_toy.
+Print Assumptions C04_dur_roundtrip_on_toy.
+Print Assumptions C04_text_date_on_toy.
+Print Assumptions C04_text_enum_on_toy.
